@@ -135,6 +135,14 @@ func runAll(c *run.Ctx) {
 						s := float64(g.Cfg.Side)
 						v := [][2]float64{{s + 1, 0}, {0, -(s + 2)}, {s + 1, s + 3}, {-(2*s + 5), s}, {1, 0}, {0, 2}}[k.Rng.Intn(6)]
 						b = translate(b, v[0], v[1])
+					} else if domain == gen.DSmall && k.Rng.Chance(1, 3) {
+						// a control point of one or both operands exactly at the origin (exact integer
+						// translation): the XY that the zero payload of an empty Point carries
+						b = shared.AnchorAtOrigin(k.Rng, b)
+						if k.Rng.Bool() {
+							a = shared.AnchorAtOrigin(k.Rng, a)
+						}
+						k.Count("origin_anchored", 1)
 					}
 					k.In("domain", domain)
 					k.In("a", shared.WKT(a))
